@@ -39,7 +39,8 @@ CHECKS = {
            "completeness on laid-out trees, nesting scan). The Coq specification itself (parse + Compact/Indent renderers) is compared with the real "
            "encoding/json on every run. Pre-filled destinations, idempotence on the implementation and HTMLEscape (which decodes and marshals again, so it is "
            "compared by value) are checked by correspondence/differential runs (all strings <=4 over the 27-byte alphabet, generated texts with every "
-           "white-space placement and single-byte edits, 7 prefix/indent pairs)."),
+           "white-space placement and single-byte edits, 7 prefix/indent pairs). "
+           "The number recogniser is TRANSLATED on every run from internal/encoder/compact.go and internal/decoder/number.go into a small scanner language (Base/ScanProg.v) and the translated program is proved, by symbolic execution, to return for EVERY byte string whether it is an RFC 8259 number (never a read beyond the slice, never a loop without progress)."),
   'note': TB,
   'technique': 'Coq proof (Compact and Indent models = encoding/json reference on all inputs; idempotence) + extracted-model and extracted-spec correspondence + differential search',
  },
@@ -52,7 +53,8 @@ CHECKS = {
            "and their single-byte edits. The buffer-mode skip functions of the typed decoders (skipValue, skipObject, skipArray: one byte-at-a-time machine) are "
            "modelled and tied by ~6*10^5 cases through RawMessage: proved complete (every value of that language is stepped over exactly, so a valid "
            "document is never refused or read differently because a part is skipped) and proved unsound by a witness (finding SkipUnvalidated as a "
-           "theorem). Partial: the stream decoder and the other typed decoders are not modelled; their recorded leniencies are open findings."),
+           "theorem). Partial: the stream decoder and the other typed decoders are not modelled; their recorded leniencies are open findings. "
+           "The number recogniser is TRANSLATED on every run from internal/encoder/compact.go and internal/decoder/number.go into a small scanner language (Base/ScanProg.v) and the translated program is proved, by symbolic execution, to return for EVERY byte string whether it is an RFC 8259 number (never a read beyond the slice, never a loop without progress)."),
   'note': TB + " Oracle parameter: float_in_range (strconv.ParseFloat's range verdict) is a function parameter of the model, not an axiom.",
   'technique': 'Coq proof (acceptor model = limited RFC 8259 grammar on all inputs) + correspondence + exhaustive small-scope differential search',
  },
@@ -61,10 +63,14 @@ CHECKS = {
            "out of range nor exhausts its fuel, i.e. CreatePath cannot panic; accepted paths start with the root selector. Tied by ~4*10^4 model-vs-"
            "implementation cases per run (all strings <=5 over 13 path symbols: verdict, PathString, quote flags). Extract is compared with a reference "
            "evaluator on every accepted path x 11 documents; reuse after failing calls, histories against a fresh Path per call, Path.Unmarshal and 4 "
-           "goroutines sharing one Path are checked differentially. Partial: evaluation (DecodePath) is not modelled in Coq; its three recorded "
-           "deviations from reference semantics are open findings."),
+           "goroutines sharing one Path are checked differentially. Evaluation is modelled too (Model/PathEval.v): the document walk of DecodePath with the cursor "
+           "Path.node, with the answers of Field/Index per node kind, the two loops and the per-call copy of the Path TRANSLATED from path.go, map.go, slice.go, decode.go; "
+           "theorems: one Path value answers EVERY document as a fresh Path would after EVERY history of earlier documents (refuted without the copy); for every path "
+           "without recursive descent and every document whose values have the kinds the selectors expect, Extract = the reference evaluation in document order; the three "
+           "open deviations each have a witness outside that class. ~5*10^4 model-vs-implementation evaluations and histories per run (recursive descent and errors "
+           "included), the reference evaluation as oracle. Partial: invalid documents, the nesting limit, Path.Get and Path.Unmarshal are compared, not modelled."),
   'note': TB,
-  'technique': 'Coq proof of parser totality + correspondence + differential evaluation/history/concurrency search',
+  'technique': 'Coq proofs (parser totality; evaluation pure for every history and equal to the reference on fitting documents, over translated node semantics) + extracted-model correspondence + differential history/concurrency search',
  },
  'C15': {
   'text': ("Proof (Coq): for every set of at most 8/16 names and EVERY key, the bitmap matcher model (table construction of tryOptimize, the "
@@ -72,9 +78,13 @@ CHECKS = {
            "that field's name (no prefix, no extension), and with the names in sort.Strings order always finds the field whose name is the lower-cased key. "
            "Tied by ~10^4 model-vs-implementation cases per run on eligible name sets. Raw, partly and fully \\u-escaped keys, buffer and stream (whole "
            "and 1-byte readers), 1..17 names from an 8-symbol alphabet, embedded structs to depth 3 with conflicts and Marshal member order are compared "
-           "with encoding/json. Partial: escape decoding inside keys, the map-based fallback and embedded-field resolution are compared, not modelled."),
+           "with encoding/json. Field resolution through embedded structs is modelled (Model/FieldRes.v; the flattening and filtering statements of compile.go and "
+           "compiler.go are checked by the translator): for EVERY struct shape and name the selected field is the one Go's rule selects (alone at the smallest depth, "
+           "or alone among the tagged there; iff), candidates are pairwise distinct, and the level-by-level resolution the code used before two repairs is refuted; "
+           "generated embedding trees (value and pointer embedding, depth 3, tags, ignored fields) run through the model and encoding/json in both directions. "
+           "Partial: escape decoding inside keys and the map-based fallback are compared, not modelled."),
   'note': TB + " lower (largeToSmallTable) is written by hand in the model: the table is filled by a loop in init(), which the translator does not evaluate.",
-  'technique': 'Coq proof of the bitmap matcher + correspondence + differential search over name sets and keys',
+  'technique': 'Coq proofs (bitmap matcher; field resolution = Go rule for every embedding shape) + extracted-model correspondence + differential search over name sets, keys and embedding trees',
  },
  'C06': {
   'text': ("Proof (Coq): in the models a read outside an array is the value Stuck and an exhausted loop bound is the value Fuel; for EVERY input neither is "
@@ -95,8 +105,12 @@ CHECKS = {
            "reflect.StructOf destinations of the C02 grammar with adjacent byte canaries before, between and after every field, element sizes 1..64 in arrays "
            "and slices, guard elements behind slice capacity, valid/truncated/mutated documents addressing subsets, buffer and piecewise stream modes; after each "
            "decode every canary and guard byte, every unaddressed field, the caller's input bytes, every string/slice header and a full traversal before and after a "
-           "forced GC are checked, the array write set is compared with the model, and the same cases run in a child built with -d=checkptr. Partial: only the array "
-           "fill and unescape arithmetic are theorems; struct field offsets, slice/map/pointer stores and the runtime helpers are covered by canaries only."),
+           "forced GC are checked, the array write set is compared with the model, and the same cases run in a child built with -d=checkptr. Also proved: for every "
+           "pointer-free destination layout (nested structs and arrays with reflect's sizes, strides and offsets) in which elements fit their stride and fields fit their "
+           "struct, every document and every address, every store the decoders may make lies inside the destination, and a field no key selects is in no store "
+           "(Model/Layout.v); pattern-filled allocations with guards are decoded into and every changed byte must lie in a store of the model (op c07.stores); the "
+           "slice decoder's slots lie inside its working array for every capacity. Partial: stores through pointers, slice/map/string headers and the runtime helpers "
+           "are covered by canaries only."),
   'note': TB,
   'technique': 'Coq write-set bounds theorems over translated fill statement + canary/guard/header/GC/checkptr differential harness',
  },
@@ -122,7 +136,10 @@ CHECKS = {
            "(a release before the last use is refuted with a concrete schedule). Observed: G in 2..64 goroutines x GOMAXPROCS 1..16 run Marshal, MarshalIndent, "
            "Encoder, Unmarshal, Decoder, Compact, Indent, Valid, MarshalContext with shared and goroutine-local FieldQueries and a shared Path over batches of types no "
            "goroutine has used before the start barrier; every result is compared with the single-threaded oracle; the same program runs in the race build where every "
-           "race-detector report with a frame inside the library is a violation; a watchdog reports deadlocks with the blocked stacks. Partial: steps are sequentially "
+           "race-detector report with a frame inside the library is a violation; a watchdog reports deadlocks with the blocked stacks. (3) First use of field queries: "
+           "no Filter method writes its receiver (translated from code.go), hence under EVERY schedule each goroutine compiles the program of its own query (refuted when "
+           "Filter writes the query into the shared node); rounds of goroutines released together, each with a query nobody has used, restricting one interface-typed "
+           "field by different sub queries. Partial: steps are sequentially "
            "consistent (the unsynchronised publish of the !race build relies on the hardware memory model, which is not modelled); real interleavings are sampled."),
   'note': TB,
   'technique': 'Coq any-schedule theorems (cache publish protocol, pooled-context discipline from translator analysis) + concurrent differential harness in race and !race builds',
@@ -137,7 +154,10 @@ CHECKS = {
            "input slices with 0..5000 bytes of spare capacity (sentinel-filled) must be bit-identical afterwards; values are snapshotted, the input is overwritten, "
            "pooled buffers are churned with other sizes, snapshots compared; Decoder streams of 2..13 documents in pieces of 1..2^20 bytes keep every earlier value; "
            "6 Marshal entry points over sizes 0..70000 with all earlier results re-checked after every call, Encoder/Compact/Indent churn and caller overwrites "
-           "(including spare capacity). Partial: the region model abstracts the decoders' sub-slicing; the Decoder's window arithmetic is observed, not proved."),
+           "(including spare capacity). Encoder side of the callbacks: bytes a MarshalJSON/MarshalText returns are only read -- a translator taint analysis (go/types objects) "
+           "follows such a slice through assignments, re-slicing and calls and lists every append/element store/copy into it; histories with marshalers that return "
+           "windows into what the caller holds keep every view intact (refuted when the sentinel is appended to the returned slice); RawMessage / marshaler windows into a "
+           "canaried buffer are encoded through six entry points. Partial: the region model abstracts the decoders' sub-slicing; the Decoder's window arithmetic is observed."),
   'note': TB,
   'technique': 'Coq history theorem over a region memory model with premises from translator alias analysis + snapshot/overwrite/churn harness',
  },
@@ -150,8 +170,11 @@ CHECKS = {
            "flags and buffer before use. Observed: a table of ~530 distinct calls over the whole public API (13 values incl. failing/panicking/invalid marshalers, "
            "16 documents incl. syntax and type errors, all option sets, shared Path/FieldQuery/Encoder/Decoder handles); the cold oracle of each call is its result as "
            "the first call of a fresh process (one child process per call); histories of 300 (thorough 400) random calls, each started in its own fresh process so that "
-           "first-use orders differ, compare every result with the cold one; a mismatch is minimised to a two-call history replayed in a fresh process. Partial: type-cache "
-           "state (covered by C14/C10 theorems) and decoder-side pooled state are observed rather than modelled field by field."),
+           "first-use orders differ, compare every result with the cold one; a mismatch is minimised to a two-call history replayed in a fresh process. Decoder side: "
+           "the pooled working array of every slice decoder is modelled (Model/SlicePool.v; the clearing of new slots read from slice.go): for EVERY content an earlier "
+           "call -- longer, shorter, failed between two elements -- may have left in it, every element type and element decoder, the call stores exactly `spec`; without "
+           "the clearing, or with it for the first slots only, the statement is refuted; sequences through one slice decoder (13 element types) are compared with "
+           "encoding/json and []int sequences with the model. Partial: type-cache state (C14/C10) and the remaining decoder-side pooled state are observed."),
   'note': TB,
   'technique': 'Coq leftover-independence theorem over translated option/context assignments + cold-process oracle vs random call histories',
  },
@@ -193,7 +216,10 @@ CHECKS = {
            "Colorize with the empty scheme = Marshal, with a scheme of unique markers = Marshal once the markers are removed (compact and indent), UnorderedMap = same "
            "document up to member order and same length, DisableHTMLEscape = Marshal with the three HTML escapes spelled out, Encoder.Encode / MarshalNoEscape / "
            "MarshalContext / Debug = Marshal, and Marshal(&v), [v] and {i:v} contain Marshal(v) wherever encoding/json itself does not distinguish the positions. "
-           "Partial: the colouring interpreters and the options are compared, not modelled; the interpreter clauses are tied by the helper bodies and output correspondence."),
+           "The colouring interpreter is modelled too (Model/EncColor.v; helper shapes of vm_color and vm_color_indent checked by the translator): for EVERY scheme, "
+           "markers of any bytes, and every value the coloured output is Marshal's bytes with markers inserted (removing exactly the markers gives Marshal's bytes), and "
+           "with the empty scheme it is Marshal's bytes; run byte for byte against Colorize (op c13.color, markers made of control bytes and of JSON punctuation). "
+           "Partial: UnorderedMap, DisableHTMLEscape and the entry points are compared, not modelled; the interpreter clauses are tied by the helper bodies and output correspondence."),
   'note': TB,
   'technique': 'Coq emission theorems for the compact and the indenting interpreter (same token sequence read back from both texts) over translated helper bodies + extracted-model correspondence + cross-variant differential harness over the generated type grammar',
  },
@@ -205,7 +231,8 @@ CHECKS = {
            "extended with non-finite floats of both widths in every position, arbitrary json.Number strings, RawMessage / MarshalJSON / MarshalText returning arbitrary "
            "bytes; 11 entry point / option combinations; a successful result must be exactly one RFC 8259 value (encoding/json.Valid, nothing around it but the Encoder's "
            "newline), valid UTF-8 while normalisation is on, and what encoding/json refuses as unrepresentable must be refused. Partial: the parser-completeness theorem "
-           "(parse_json (marshal v) = tokens) is not proved; validity of composed output is observed with encoding/json.Valid."),
+           "(parse_json (marshal v) = tokens) is not proved; validity of composed output is observed with encoding/json.Valid. "
+           "The number recogniser is TRANSLATED on every run from internal/encoder/compact.go and internal/decoder/number.go into a small scanner language (Base/ScanProg.v) and the translated program is proved, by symbolic execution, to return for EVERY byte string whether it is an RFC 8259 number (never a read beyond the slice, never a loop without progress)."),
   'note': TB,
   'technique': 'Coq grammar/balance theorems over the emission model + translator float-guard facts + validity harness over generated types with unrepresentable values',
  },
@@ -217,10 +244,13 @@ CHECKS = {
            "recursive, mutually recursive and interface-bearing shapes with every field kind before and after the recursive member, nesting depth 0..2000, DAG-shaped values, "
            "cycles through pointers, maps, slices, arrays and interfaces (must give an error), generated types, marshal callbacks that allocate, force GC and grow the stack, "
            "the four interpreters, each compared with encoding/json, in a child process (crash/hang attributed to the case) and again in a child built with -d=checkptr. "
-           "Instead of the hook named in the property (bounds assertions in load/store) the frame theorem plus the checkptr build are used. Partial: cycle detection "
-           "(SeenPtr) and GC interaction are observed, not modelled; CurLen is modelled as the full length of the enclosing code."),
+           "Instead of the hook named in the property (bounds assertions in load/store) the frame theorem plus the checkptr build are used. Cycle detection is modelled "
+           "(Model/Cycle.v, threshold read from the source): on EVERY finite graph of values the recursion ends within threshold + nodes + 1 levels (a cycle gives the "
+           "error, never unbounded recursion) and a value without a cycle, shared parts included, is never refused; generated graphs with straight parts of up to 1100 "
+           "nodes, DAG tails and back edges run through the model with encoding/json as oracle. Partial: GC interaction is observed; CurLen is modelled as the full "
+           "length of the enclosing code."),
   'note': TB,
-  'technique': 'Coq frame-separation theorem over translated interpreter constants + deep/recursive/cyclic/GC-callback harness in normal and checkptr child processes',
+  'technique': 'Coq frame-separation theorem over translated interpreter constants and cycle-detection theorems (termination on every graph, no false cycle) + extracted-model correspondence + deep/recursive/cyclic/GC-callback harness in normal and checkptr child processes',
  },
  'C19': {
   'text': ("Proof (Coq): model of the stored Code tree, the Filter methods, the run of a filtered program on a value, the query cache and FieldQuery.MarshalJSON / "
